@@ -16,7 +16,7 @@ use uom::si::time::second;
 pub fn def() -> PropDef {
     PropDef {
         id: "C09",
-        rule: "inputs: (1) junk bank lists (0-40 banks; valid names of every kind, near-valid and random names; random bytes or valid packets of another kind); (2) realistic hit-pattern events (correlated wire pulses + 3-row pad clusters rendered with the shipped response functions, induction, integer noise) and forward-model annihilation events; (3) the same events re-encoded with valid CRCs/baselines after extreme edits: any wire sample to i16::MIN/MAX/ADC limits, any pad sample to i16::MIN/MAX/-2048/2047, wire waveforms of 64..703 (thorough: 65533) samples, pad requested_samples 0/1/100/101/511, a message with all 79 channels (incl. FPN/reset), the full ring of 256 wires, 16-byte suppressed packets, duplicated/dropped/renamed/foreign/corrupted banks, run numbers of every calibration era, any bank order; oracle: try_from_banks returns, and for every Ok event timestamp(), avalanches() and vertex() return (catch_unwind, builds with and without overflow checks), every avalanche has finite t/phi/z and finite positive amplitudes, a vertex is finite; non-trivial = build succeeded with >= 1 avalanche, or was rejected by a rule other than the bank-name grammar; distinct by bank-list hash",
+        rule: "inputs: (1) junk bank lists (0-40 banks; valid names of every kind, near-valid and random names; random bytes or valid packets of another kind); (2) realistic hit-pattern events (correlated wire pulses + 3-row pad clusters rendered with the shipped response functions, induction, integer noise) and forward-model annihilation events; (3) the same events re-encoded with valid CRCs/baselines after extreme edits: any wire sample to i16::MIN/MAX/ADC limits, any pad sample to i16::MIN/MAX/-2048/2047, wire waveforms of 64..703 (thorough: 65533) samples, pad requested_samples 0/1/100/101/511 for the whole event or for single chips (pads of one column then have waveforms of different lengths), a message with all 79 channels (incl. FPN/reset), the full ring of 256 wires, 16-byte suppressed packets, duplicated/dropped/renamed/foreign/corrupted banks, run numbers of every calibration era, any bank order; oracle: try_from_banks returns, and for every Ok event timestamp(), avalanches() and vertex() return (catch_unwind, builds with and without overflow checks), every avalanche has finite t/phi/z and finite positive amplitudes, a vertex is finite; non-trivial = build succeeded with >= 1 avalanche, or was rejected by a rule other than the bank-name grammar; distinct by bank-list hash",
         assumptions: &["stack overflow / abort are not observable through catch_unwind; they would end the check with exit 2"],
         run,
         replay,
@@ -34,6 +34,8 @@ pub enum EvEdit {
     Suppressed16 { board: u8, channel: u8 },
     /// a 16-byte suppressed packet for a wire that also has a data packet in the event
     SuppressedExisting { w: u16 },
+    /// one PWB message (chip) of the event read out with another number of samples than the others
+    MsgSamples { msg: u16, n: u16 },
     /// copy pad p's waveform onto `n` neighbouring rows above it (identical raw
     /// waveforms on adjacent pads: a saturated or test-pattern chip)
     ClonePadRows { p: u16, n: u8 },
@@ -62,6 +64,7 @@ fn ev_edit(tier: Tier) -> impl Strategy<Value = EvEdit> {
         2 => (any::<u16>(), 0u8..4).prop_map(|(board, chip)| EvEdit::AllChannels { board, chip }),
         1 => (0u8..8, 0u8..32).prop_map(|(board, channel)| EvEdit::Suppressed16 { board, channel }),
         1 => any::<u16>().prop_map(|w| EvEdit::SuppressedExisting { w }),
+        3 => (any::<u16>(), prop_oneof![Just(0u16), Just(1), Just(100), Just(101), Just(150), Just(200), Just(511), 0u16..=511]).prop_map(|(msg, n)| EvEdit::MsgSamples { msg, n }),
         3 => (any::<u16>(), 1u8..6).prop_map(|(p, n)| EvEdit::ClonePadRows { p, n }),
         2 => (any::<u16>(), 1u8..12).prop_map(|(w, n)| EvEdit::CloneWires { w, n }),
     ]
@@ -108,6 +111,7 @@ impl C09Case {
                         p.samples.truncate(n as usize);
                     }
                 }
+                EvEdit::MsgSamples { msg, n } => ev.msg_samples.push((msg, n)),
                 EvEdit::ClonePadRows { p, n } if !ev.pads.is_empty() => {
                     let src = ev.pads[pick(p, ev.pads.len())].clone();
                     for d in 1..=n as u16 {
